@@ -7,6 +7,7 @@ import M4ri.BMat
 import M4ri.Spec
 import M4ri.Mul
 import M4ri.Elim
+import M4ri.M4riElim
 namespace M4ri
 
 abbrev R := Except String
@@ -280,6 +281,15 @@ def runOpAlg (op : String) (a : Array Val) : R (Array Val × Option (Array Val))
     let (R, r) := gaussDelayed M.toB 0 full
     pure (#[.int r, inPlace M R], if full then some #[.int M.toB.rank, inPlace M M.toB.rref] else none)
   -- canonical results for the routines that are not mirrored step by step: rank, and the RREF when `full`
+  | "echelonize_m4ri_exact" =>
+    -- `mzd_echelonize_m4ri(A, full, k)` with k ≥ 1: exact mirror (also of the non-reduced, non-unique output)
+    let M ← argMat a 0; let full := (← argNat a 1) ≠ 0; let k ← argNat a 2
+    let (Rm, r) := M4RI.echelonizeM4ri M.toB full k
+    pure (#[.int r, inPlace M Rm], if full then some #[.int M.toB.rank, inPlace M M.toB.rref] else none)
+  | "top_echelonize_exact" =>
+    let M ← argMat a 0; let k ← argNat a 1
+    let (Rm, r) := M4RI.topEchelonizeM4ri M.toB k 0 0 M.nrows
+    pure (#[.int r, inPlace M Rm], none)
   | "echelonize_m4ri" | "echelonize_m4ri_h" | "echelonize_pluq" | "echelonize" =>
     let M ← argMat a 0; let full := (← argNat a 1) ≠ 0
     if full then pure (same #[.int M.toB.rank, inPlace M M.toB.rref]) else pure (same #[.int M.toB.rank])
